@@ -194,6 +194,8 @@ type Check struct {
 	Batches func(tier string) int
 	// RaceBatches: how many additional batches run under the -race binary.
 	RaceBatches func(tier string) int
+	// AsanBatches: additional batches under the -asan binary (skipped when it was not built).
+	AsanBatches func(tier string) int
 	Run         func(c *Ctx)
 	// MustObserve lists counters that must be > 0 in the merged result, else
 	// the monitor was blind and the check is broken (exit 2).
@@ -339,6 +341,7 @@ func binPath(name string, race bool) string {
 type batchSpec struct {
 	idx  int
 	race bool
+	asan bool
 }
 
 // DriverMain runs check id at tier and returns the process exit code.
@@ -377,14 +380,23 @@ func DriverMain(id, tier string, replay string) int {
 			return 2
 		}
 		seed, tier, only, nb = rf.Seed, rf.Tier, rf.Case, rf.NBatches
-		specs = []batchSpec{{rf.Batch, rf.Race}}
+		specs = []batchSpec{{idx: rf.Batch, race: rf.Race}}
 	} else {
 		for i := 0; i < nb; i++ {
-			specs = append(specs, batchSpec{i, false})
+			specs = append(specs, batchSpec{idx: i})
 		}
 		if ck.RaceBatches != nil {
 			for i := 0; i < ck.RaceBatches(tier); i++ {
-				specs = append(specs, batchSpec{nb + i, true})
+				specs = append(specs, batchSpec{idx: nb + i, race: true})
+			}
+		}
+		if ck.AsanBatches != nil && ck.AsanBatches(tier) > 0 {
+			if _, err := os.Stat(binPath(ck.Binary, false) + ".asan"); err == nil {
+				for i := 0; i < ck.AsanBatches(tier); i++ {
+					specs = append(specs, batchSpec{idx: len(specs), asan: true})
+				}
+			} else {
+				fmt.Printf("NOTE check=%s the -asan binary is not built; its batches are skipped\n", id)
 			}
 		}
 	}
@@ -556,6 +568,9 @@ var raceRe = regexp.MustCompile(`WARNING: DATA RACE`)
 
 func runChild(ck *Check, tier string, seed int64, sp batchSpec, nb int, outdir string, only int, timeout time.Duration) (*Result, []Violation) {
 	bin := binPath(ck.Binary, sp.race)
+	if sp.asan {
+		bin = binPath(ck.Binary, false) + ".asan"
+	}
 	outf := filepath.Join(outdir, fmt.Sprintf("b%d.out", sp.idx))
 	of, _ := os.Create(outf)
 	ctx, cancel := context.WithTimeout(context.Background(), timeout)
@@ -619,6 +634,11 @@ func runChild(ck *Check, tier string, seed int64, sp batchSpec, nb int, outdir s
 			}
 			extra = append(extra, Violation{Property: ck.ID, Signature: "data-race:" + rep.key, Text: rep.text, Batch: sp.idx, Case: lastCase, Race: sp.race})
 		}
+	}
+	if strings.Contains(out, "ERROR: AddressSanitizer") {
+		line := firstMatch(out, `(?m)^.*ERROR: AddressSanitizer.*$`)
+		extra = append(extra, Violation{Property: ck.ID, Signature: "asan:" + crashClass(line, out), Text: line + " (case: " + lastDesc + ")", Batch: sp.idx, Case: lastCase, Witness: tail})
+		return res, extra
 	}
 	if err != nil {
 		if ck.Classify != nil {
